@@ -246,9 +246,20 @@ func TestC20RuleTables(t *testing.T) {
 		return w
 	}
 	vals := map[string]string{"arch": "b64", "perm": "wa", "filetype": "dir", "exit": "-EPERM", "msgtype": "1300", "saddr_fam": "2", "path": "/etc/hosts", "dir": "/etc"}
-	var fields []string
+	// the names of the library's own (unexported) tables, read from the source of the working tree
+	fields := sourceTableKeys(t, "/repo/rule/tables.go", "var fieldsTable = map[string]field{")
+	libOps := sourceTableKeys(t, "/repo/rule/tables.go", "var operatorsTable = map[string]operator{")
+	if len(fields) < 40 || len(libOps) < 8 {
+		t.Fatalf("rule tables not found in the source (%d fields, %d operators)", len(fields), len(libOps))
+	}
 	for f := range rulegen.FieldConst {
-		fields = append(fields, f)
+		found := false
+		for _, g := range fields {
+			found = found || f == g
+		}
+		if !found {
+			fields = append(fields, f)
+		}
 	}
 	sort.Strings(fields)
 	seenCode := map[uint32]string{}
@@ -267,11 +278,24 @@ func TestC20RuleTables(t *testing.T) {
 			c.fail("rule-field", f, "field is not accepted with '=' on the %s list", list)
 		}
 		if prev, dup := seenCode[w.Fields[0]]; dup {
-			c.fail("rule-field", f, "encodes to code %d, like field %q", w.Fields[0], prev)
+			c.fail("rule-field", f, "encodes to code %d, like field %q: the name table is not invertible", w.Fields[0], prev)
 		}
 		seenCode[w.Fields[0]] = f
+		// name -> code -> name: the displayed rule must use the same name (the -w form has no field names)
+		if txt, err := rule.ToCommandLine(mustBuild(t, fmt.Sprintf("-a always,%s -F %s=%s -F pid=1", list, f, v)), false); err != nil || !strings.Contains(txt, " "+f+"=") {
+			c.fail("rule-field", f, "a rule with field %q is displayed as %q (err %v): the name does not come back", f, txt, err)
+		}
 	}
 	seenOp := map[uint32]string{}
+	for _, op := range libOps {
+		known := false
+		for _, o := range rulegen.AllOps {
+			known = known || o == op
+		}
+		if !known {
+			c.fail("rule-operator", op, "operator %q is in the library's table but is not an auditctl operator", op)
+		}
+	}
 	for _, op := range rulegen.AllOps {
 		c.entry("rule-operator", op)
 		w := roundTrip("rule-operator", op, fmt.Sprintf("-a always,exit -F 'pid%s7'", op))
@@ -371,3 +395,35 @@ func TestC20Normalizations(t *testing.T) {
 }
 
 func errnoCanon(n int) string { return auparse.AuditErrnoToName[n] }
+
+func mustBuild(t *testing.T, line string) rule.WireFormat {
+	r, err := flags.Parse(line)
+	if err != nil {
+		t.Fatalf("%q: %v", line, err)
+	}
+	wf, err := rule.Build(r)
+	if err != nil {
+		t.Fatalf("%q: %v", line, err)
+	}
+	return wf
+}
+
+// sourceTableKeys returns the string keys of a map literal in a Go source file.
+func sourceTableKeys(t *testing.T, path, header string) []string {
+	b, err := os.ReadFile(path)
+	if err != nil {
+		t.Fatalf("cannot read %s: %v", path, err)
+	}
+	text := string(b)
+	i := strings.Index(text, header)
+	if i < 0 {
+		return nil
+	}
+	body := text[i+len(header):]
+	body = body[:strings.Index(body, "\n}")]
+	var keys []string
+	for _, m := range regexp.MustCompile(`(?m)^\s*"([^"]+)":`).FindAllStringSubmatch(body, -1) {
+		keys = append(keys, m[1])
+	}
+	return keys
+}
